@@ -114,6 +114,7 @@ type State struct {
 	rvStore       map[int]map[string]*Term
 	byteStr       map[int]*StringV
 	probing       int
+	rvCells       map[string]Value
 }
 
 func (s *State) freshName(base string) string {
@@ -688,7 +689,7 @@ func (s *State) symValueAt(t types.Type, base string, idx *Term) Value {
 			return &StringV{Arr: &ArrVar{Name: s.freshName(base + ".str"), W: 8}, Len: l}
 		}
 	case *types.Pointer:
-		p := &PtrV{Nil: App(base+".isnil", BoolSort, idx), Elem: u.Elem()}
+		p := &PtrV{Nil: App(base+".isnil", BoolSort, idx), Elem: u.Elem(), Addr: App(base+".addr", BV(64), idx)}
 		p.lazy = func() *Obj {
 			o := s.newObj(u.Elem(), s.symValueAt(u.Elem(), base+".", idx), base, false)
 			o.ReadOnly = true
